@@ -2,6 +2,7 @@ package c06
 
 import (
 	"fmt"
+	"hash/crc32"
 	"os"
 	"sort"
 	"strings"
@@ -24,7 +25,7 @@ func TestMain(m *testing.M) {
 
 // Case is one generated input: a description of a package (plain data) that Build() turns into bytes.
 type Case struct {
-	Gen   string              `json:"gen"`             // a | b | c | fixed | raw (whole file in Raw) | rawmain (main part in Raw)
+	Gen   string              `json:"gen"`             // a | b | c | o | fixed | raw (whole file in Raw) | rawmain (main part in Raw)
 	Parts map[string]*XMLPart `json:"parts,omitempty"` // part name -> generated replacement of the standard part
 	Cont  []COp               `json:"cont,omitempty"`  // container-level operators
 	Raw   []byte              `json:"raw,omitempty"`   // base64 in JSON
@@ -32,8 +33,11 @@ type Case struct {
 	Note  string              `json:"note,omitempty"`
 	// Pre: main parts of well-formed packages (standard container) that are opened, in order, before the package of the case:
 	// the case is then a sequence of Opens in one process. Only Open is judged on them (it must not panic).
-	Pre  []*XMLPart `json:"pre,omitempty"`
-	Hist *Hist      `json:"hist,omitempty"` // provenance of a generated case (hist.go); not part of the input
+	Pre []*XMLPart `json:"pre,omitempty"`
+	// Follow: calls made on the opened document before the fixed edit script, in this order (optparts.go: FollowOps). They decide
+	// which call is the first to need one of the optional parts Open only stored.
+	Follow []string `json:"follow,omitempty"`
+	Hist   *Hist    `json:"hist,omitempty"` // provenance of a generated case (hist.go); not part of the input
 }
 
 // runLocal judges the case in this process.
@@ -65,6 +69,9 @@ func runLocal(c Case) *kit.Result {
 		}
 		var sb strings.Builder
 		p.Root.skeleton(&sb, 0)
+		if p.Lit != "" {
+			sb.WriteString(fmt.Sprintf("lit:%d:%08x", len(p.Lit), crc32.ChecksumIEEE([]byte(p.Lit))))
+		}
 		shape = append(shape, n+"="+sb.String()+"|"+p.Prolog+"|"+strings.Join(p.Ops, "+"))
 		for _, op := range p.Ops {
 			if op == "distinct" {
@@ -103,7 +110,7 @@ func runLocal(c Case) *kit.Result {
 	if !faulted {
 		res.Label("fault:none")
 	}
-	in := judgeOpen(res, b, via)
+	in := judgeOpen(res, b, via, c.Follow)
 	if in.Zip {
 		res.Label("input:zip")
 	}
@@ -136,6 +143,50 @@ func runLocal(c Case) *kit.Result {
 	}
 	if in.FldChars > 0 {
 		res.Label("input:fldChar")
+	}
+	optNames := make([]string, 0, len(in.Opt))
+	for n := range in.Opt {
+		optNames = append(optNames, n)
+	}
+	sort.Strings(optNames)
+	for _, n := range optNames {
+		o := in.Opt[n]
+		if n != nStyles || c.Gen == "o" {
+			res.Label("opt:" + n)
+		}
+		if c.Gen != "o" {
+			continue
+		}
+		if len(o.Data) <= maxOptJudged {
+			if o.wellFormed() {
+				res.Label("opt:well-formed-part")
+			} else {
+				res.Label("opt:damaged-part")
+			}
+		}
+		if o.Foreign > 0 && o.Completes {
+			res.Label("opt:foreign-child-under-root") // the whole part tokenises: the foreign child is reached by a reader
+			if n != nStyles && n != "word/settings.xml" {
+				res.Label("opt:foreign-child-under-root:notes-or-numbering")
+			}
+		}
+		if o.SelfClosed {
+			res.Label("opt:root-selfclosed")
+		}
+		if o.RootPrefix != "w" && o.RootLocal != "" {
+			res.Label("opt:root-prefix-not-w")
+		}
+		if o.RootSpace != nsW && o.RootLocal != "" {
+			res.Label("opt:root-namespace-other")
+		}
+		if o.Children == 0 && o.Completes {
+			res.Label("opt:no-children")
+		}
+	}
+	if len(c.Follow) > 0 {
+		name, _ := opName(c.Follow[0])
+		res.Label("follow-first:" + name)
+		shape = append(shape, "follow:"+strings.Join(c.Follow, ","))
 	}
 	for _, k := range []int{100, 1000, 10000, 30000} {
 		if in.Distinct >= k {
@@ -199,7 +250,10 @@ func fixed() []Case {
 		{Gen: "fixed", Via: "mem", Note: "no content types, no rels", Cont: []COp{{Op: "drop", Name: nCT}, {Op: "drop", Name: nRels}}},
 		{Gen: "fixed", Via: "mem", Note: "empty styles", Cont: []COp{{Op: "empty", Name: nStyles}}},
 	}
-	return cases
+	if os.Getenv("C06_NOFIXEDOPT") != "" {
+		return cases // sensitivity experiments: what the generated cases find without the hand-written optional parts
+	}
+	return append(cases, fixedOpt()...)
 }
 
 func TestC06(t *testing.T) {
@@ -209,6 +263,7 @@ func TestC06(t *testing.T) {
 	historyPrelude() // a replayed case that fails only after the cases that preceded it (hist.go); may set kit.Tier from its stamp
 	MaxPartBytes = tierBytes(kit.Tier)
 	v := TheVocab()
+	ov := TheOptVocab()
 	must := map[string]float64{"open:ok": 0.30, "open:err": 0.20, "input:tables": 0.20, "via:file": 0.2, "gen:b": 0.1, "gen:c": 0.1, "save:ok": 0.25}
 	for _, op := range FaultOps {
 		must["fault:"+op] = 0.02
@@ -226,6 +281,14 @@ func TestC06(t *testing.T) {
 	must["input:field-instruction-split"] = 0.05
 	must["shape:distinct-values"] = 0.03
 	must["sequence-of-opens"] = 0.005
+	must["gen:o"] = 0.07
+	for _, n := range ov.Parts {
+		must["opt:"+n] = 0.015
+	}
+	must["opt:foreign-child-under-root:notes-or-numbering"] = 0.01
+	must["opt:damaged-part"] = 0.01
+	must["opt:root-prefix-not-w"] = 0.01
+	must["follow:drawn"] = 0.05
 	var crashers []Case
 	if kit.Tier == "thorough" && kit.Shard == 0 && os.Getenv("VERIF_REPLAY") == "" {
 		crashers = nativeFuzz(t) // generator (d); its crashers go through the verdict pipeline as fixed cases
@@ -236,7 +299,10 @@ func TestC06(t *testing.T) {
 			"; string values partly composed from the string constants the reader compares values with or slices them by, extracted the same way: " + fmt.Sprint(len(v.Own)) +
 			" elements have such constants of their own) with 0-3 fault operators, content controls / fields as other producers write them (instruction split over runs, truncated, unbalanced quotes, incomplete fldChar sequences), " +
 			"attribute values that differ from slot to slot and case to case, in ~4.5% of the cases preceded by 1-3 Opens of packages with 10^4..5*10^4 distinct attribute values each (the case is then a sequence of Opens in one process), " +
-			"(b) the standard optional parts ([Content_Types].xml, _rels/.rels, document.xml.rels, styles.xml, core.xml) mutated by the same operators, (c) container-level operators; " +
+			"(b) the standard optional parts ([Content_Types].xml, _rels/.rels, document.xml.rels, styles.xml, core.xml) mutated by the same operators, (c) container-level operators, " +
+			"(o) the optional parts Open only stores (" + strings.Join(ov.Parts, ", ") + "; vocabulary of their lazy, byte-splicing readers extracted from " + ov.Source + ": " + fmt.Sprint(len(ov.Elems)) + " element names, " +
+			fmt.Sprint(len(ov.Attrs)) + " attribute names) as other producers write them - other prefixes, self-closing roots, children in foreign namespaces directly under the root, odd ids, damaged content - " +
+			"together with a drawn script of the follow-up calls that read / extend them (lists, notes, note counts and removals, footnote configuration, style-referring edits, intermediate saves); " +
 			"non-trivial = the bytes are a readable zip containing word/document.xml, the case is not the unmodified standard package, and at least one start element of the main part tokenises; " +
 			"distinct = distinct (generator, element skeleton with bucketed repetition/nesting, prolog, fault operators, container operators, open outcome)",
 		Gen: genStamped, Run: run, Findings: findings, Fixed: func() []Case { return append(fixed(), crashers...) },
@@ -245,6 +311,7 @@ func TestC06(t *testing.T) {
 			"well-formedness of the regenerated main part is decided by the harness's own checker, not by a schema validator",
 			"the package-level clause T3.p3 is demanded only when the input's content types and package relationships were the standard ones or in the class the library replaces by defaults (absent, or not readable as XML up to the end of the root element)",
 			"per opened document the table script runs on at most 6 tables and visits at most 3000 cells per table",
+			"the clause on the re-saved optional parts (numbering, notes, settings, styles) is demanded only for a part the input carried well-formed (harness checker, UTF-8) or did not carry, and decided on parts up to 1 MB",
 			"memory exhaustion is out of scope: generated parts are capped at 4 MB (thorough 12 MB)",
 			"every case is judged in the process that judged all earlier cases of the shard (state the reader keeps per process accumulates on purpose); at the first unattributed panic the case is judged once more alone in a fresh child process to tell an input-dependent failure from a history-dependent one, and what rapid asks for afterwards (reproduction, shrink candidates) is judged in fresh child processes",
 			"a history-dependent failure is reproduced from the provenance stamp of the saved case (seed, shard, tier, index): rapid's case sequence is a pure function of the seed, the regeneration is validated by regenerating the stamped case itself; a history re-run that cannot be completed (generator changed, 400 s budget) is reported as INCONCLUSIVE or judged alone, never as a violation",
@@ -253,7 +320,8 @@ func TestC06(t *testing.T) {
 		CaseLimit: time.Duration(kit.Scale(10, 20)) * time.Second,
 		Extra: func() map[string]interface{} {
 			return map[string]interface{}{"vocabulary_source": v.Source, "vocabulary_elements": fmt.Sprint(len(v.Elems)),
-				"vocabulary_value_constants": fmt.Sprint(len(v.Global)), "cases_judged_in_child_processes": proc.children}
+				"vocabulary_value_constants": fmt.Sprint(len(v.Global)), "cases_judged_in_child_processes": proc.children,
+				"optional_part_vocabulary": ov.Source + ": parts " + strings.Join(ov.Parts, " ") + "; reader functions " + strings.Join(ov.Funcs, " ")}
 		},
 	})
 }
